@@ -168,6 +168,7 @@ func loadProg(repo string) (*Prog, error) {
 	}
 	sort.Slice(p.MapTypes, func(i, j int) bool { return p.MapTypes[i].String() < p.MapTypes[j].String() })
 	p.computeWrites()
+	p.loadRenames()
 	return p, nil
 }
 
@@ -249,6 +250,7 @@ func (p *Prog) computeWrites() {
 					return true
 				}
 				fi.Writes["$all"] = true
+				fi.Writes["$calls"] = true
 			}
 			return true
 		})
